@@ -46,6 +46,9 @@ CLAIMS['C20'] = dict(ref='DESIGN.md §3 C20, Part A',
 CLAIMS['C13'] = dict(ref='DESIGN.md Part A',
                      text="Decoding half only: bounded symbolic model checking of UnmarshalJSON on every byte string up to 5 bytes (7 thorough): null/empty leave the receiver untouched, every RFC 8259 number gets exactly the value the text denotes (independent JSON-number recogniser; rounding kernel cut), every other input is an *json.UnmarshalTypeError with the receiver untouched or a lenient numeral form with exactly the denoted value. MarshalJSON is NOT covered.",
                      note=TRUST + "encoding/json is replaced by its documented contract (the method receives the raw token); MarshalJSON, the Marshal/Unmarshal round trip and inputs longer than the bound are outside this check.")
+CLAIMS['C18'] = dict(ref='DESIGN.md Part A',
+                     text="Special-case / shortcut ladder of PowWithMode only: all 11 x 13 operand class pairs (every bit inside a class and the mode symbolic) against math.Pow of the installed toolchain, y=0 -> 1, x=1 -> 1, y=1 -> x bit-identical, y=-1 -> the mode-rounded reciprocal, NaN propagation, negative base with non-integer exponent -> NaN with the Pow payload, and powers of ten raised to integers (the exact power reaches the rounding kernel, or Inf / zero beyond the range). Any path that reaches the general algorithm (decomposed192.log) ends there and nothing is claimed about it.",
+                     note=TRUST + "The accuracy half of the property (general path) is outside, for the C16 reason. QuoWithMode is an uninterpreted function here. Integer / half-integer exponents are taken in their exponent-0 / -1 encodings; the +-0.5 shortcut and Pow == PowWithMode(DefaultRoundingMode) are not checked.")
 NA = {
     'C16': "accuracy of the exp/log series is numerical analysis over iterated 192-bit mul/div with data-dependent loops; no bounded solver query decides a one-ulp error bound (DESIGN.md §5)",
     'C17': "convergence of the fixed-count Heron/Halley iterations with symbolic 192-bit division is not expressible as a decidable bounded query (DESIGN.md §5)",
